@@ -100,3 +100,13 @@ func vthreads(l string, f1, f2 func()) {
 	<-done
 	<-done
 }
+
+// vResetGlobals restores the harness-level globals to their initial values. The engine runs
+// every path from freshly initialised globals; the native replay runs many cases in one
+// process and calls this before each of them (a case that panics may leave them set).
+func vResetGlobals() {
+	vMode, vLocked, vPickMax = 0, false, 0
+	vNoMul, vOuterOpen, vConcreteValues = false, false, false
+	vObserversOn, vOnlyEvt = false, -1
+	vCb = vCbState{}
+}
